@@ -832,9 +832,15 @@ def pattern_const_f32(context, tree):
     return d
 
 
+def sign_extend(context, reg, bits):
+    """Sign extend the low bits of reg into a new register"""
+    d = context.new_reg(RiscvRegister)
+    context.emit(Slli(d, reg, 32 - bits))
+    context.emit(Srai(d, d, 32 - bits))
+    return d
+
+
 @isa.pattern("stm", "CJMPI32(reg, reg)", size=4)
-@isa.pattern("stm", "CJMPI16(reg, reg)", size=4)
-@isa.pattern("stm", "CJMPI8(reg, reg)", size=4)
 def pattern_cjmpi(context, tree, c0, c1):
     op, yes_label, no_label = tree.value
     opnames = {"<": Blt, ">": Bgt, "==": Beq, "!=": Bne, ">=": Bge, "<=": Ble}
@@ -844,8 +850,35 @@ def pattern_cjmpi(context, tree, c0, c1):
     context.emit(jmp_ins)
 
 
-@isa.pattern("stm", "CJMPU8(reg, reg)", size=4)
-@isa.pattern("stm", "CJMPU16(reg, reg)", size=4)
+@isa.pattern("stm", "CJMPI16(reg, reg)", size=12)
+def pattern_cjmpi16(context, tree, c0, c1):
+    # The upper bits of a register holding a 16 bit value are unspecified
+    pattern_cjmpi(
+        context, tree, sign_extend(context, c0, 16), sign_extend(context, c1, 16)
+    )
+
+
+@isa.pattern("stm", "CJMPI8(reg, reg)", size=12)
+def pattern_cjmpi8(context, tree, c0, c1):
+    pattern_cjmpi(
+        context, tree, sign_extend(context, c0, 8), sign_extend(context, c1, 8)
+    )
+
+
+@isa.pattern("stm", "CJMPU8(reg, reg)", size=12)
+def pattern_cjmpu8(context, tree, c0, c1):
+    pattern_cjmpu(
+        context, tree, zero_extend(context, c0, 8), zero_extend(context, c1, 8)
+    )
+
+
+@isa.pattern("stm", "CJMPU16(reg, reg)", size=12)
+def pattern_cjmpu16(context, tree, c0, c1):
+    pattern_cjmpu(
+        context, tree, zero_extend(context, c0, 16), zero_extend(context, c1, 16)
+    )
+
+
 @isa.pattern("stm", "CJMPU32(reg, reg)", size=4)
 def pattern_cjmpu(context, tree, c0, c1):
     op, yes_label, no_label = tree.value
